@@ -14,7 +14,7 @@ use futures::task::ArcWake;
 use swimos_api::error::StoreError;
 use swimos_api::persistence::{NodePersistence, PlanePersistence, RangeConsumer};
 
-use crate::script::{esc, esc_str, Cell, Handover, Model, Spec, Step};
+use crate::script::{esc, esc_str, Cell, Handover, Model, Presence, Spec, Step};
 
 /// A store that can be opened (and, for RocksDB, closed and opened again on the same directory).
 pub trait Backend {
@@ -22,6 +22,16 @@ pub trait Backend {
     fn open(&mut self) -> Result<Self::Plane, StoreError>;
     /// Called once the runner has dropped every node store and the plane store.
     fn closed(&mut self);
+    /// Try to open the store a second time while it is open and drop the result at once.
+    /// `None`: the backend has no notion of it.
+    fn second_open(&mut self) -> Option<Result<(), StoreError>> {
+        None
+    }
+    /// While the store is closed: write one raw key into the map column family of the database,
+    /// not through the store. `None`: the backend cannot; `Some(Err(_))`: the harness failed to.
+    fn foreign_map_key(&mut self, _key: &[u8], _value: &[u8]) -> Option<Result<(), String>> {
+        None
+    }
 }
 
 pub type NodeOf<B> = <<B as Backend>::Plane as PlanePersistence>::Node;
@@ -153,7 +163,7 @@ pub struct Runner<'s, B: Backend> {
     pub viols: Vec<Viol>,
     pub inconclusive: Option<String>,
     pub events: u64,
-    pub counters: BTreeMap<&'static str, u64>,
+    pub counters: BTreeMap<String, u64>,
     history: Vec<&'s Step>,
     /// `Debug` text of the identifier returned by the most recent `id_for`.
     pub last_id_text: Option<String>,
@@ -161,6 +171,20 @@ pub struct Runner<'s, B: Backend> {
     pub context: Json,
     /// Identifiers allocated by `burn_ids` (filler names that push the allocator past 127 / 255).
     burned: Vec<(String, IdOf<B>)>,
+    /// Set by the parts whose histories contain kind-confusion steps: after a write that was
+    /// accepted although the item holds data of the other kind (or that was of the other kind than
+    /// the item is used with), and after every refused write, the runner reads the representation(s)
+    /// that must not have changed at once (`probe`), so that a difference is attributed to that
+    /// very operation (`kinds/<accepted|refused>-<operation>/...`).
+    pub kinds_mode: bool,
+    /// Per item and representation (`[value, map]`): the first operation whose probe of that
+    /// representation was itself refused by the store (the in-memory store refuses to read an
+    /// item as a map while it holds a value and vice versa), so that the representation has not
+    /// been seen since. The next read of it that succeeds and differs is attributed to it.
+    unverified: Vec<Vec<[Option<String>; 2]>>,
+    /// A malformed key written by a foreign writer lies under the key prefix of this map item and
+    /// no `clear_map` of the item has been accepted since.
+    foreign_pending: Vec<Vec<bool>>,
 }
 
 impl<'s, B: Backend> Runner<'s, B> {
@@ -187,11 +211,19 @@ impl<'s, B: Backend> Runner<'s, B> {
             last_id_text: None,
             context: Json::Null,
             burned: Vec::new(),
+            kinds_mode: false,
+            unverified: shape.iter().map(|v| v.iter().map(|_| [None, None]).collect()).collect(),
+            foreign_pending: shape.iter().map(|v| vec![false; v.len()]).collect(),
         }
     }
 
-    pub fn count(&mut self, k: &'static str) {
-        *self.counters.entry(k).or_insert(0) += 1;
+    pub fn count(&mut self, k: &str) {
+        match self.counters.get_mut(k) {
+            Some(n) => *n += 1,
+            None => {
+                self.counters.insert(k.to_string(), 1);
+            }
+        }
     }
 
     pub fn stopped(&self) -> bool {
@@ -389,16 +421,31 @@ impl<'s, B: Backend> Runner<'s, B> {
         }
     }
 
-    /// Read one item through the store. `Err(())`: a violation / inconclusive was recorded.
+    /// Read one item through the read of its declared kind. `Err(())`: a violation / inconclusive
+    /// was recorded.
     pub fn observe(&mut self, a: usize, i: usize) -> Result<Observed, ()> {
-        let id = self.id_of(a, i).ok_or(())?;
-        let is_map = self.spec.agents[a].items[i].map;
-        let expected_len = match &self.model.cells[a][i] {
+        let as_map = self.spec.agents[a].items[i].map;
+        match self.read_raw(a, i, as_map) {
+            Ok(obs) => Ok(obs),
+            Err(None) => Err(()),
+            Err(Some((op, e))) => {
+                self.store_error(op, &e, Some((a, Some(i))));
+                Err(())
+            }
+        }
+    }
+
+    /// Read one item as a map (`read_map` + the range consumer) or as a value (`get_value`).
+    /// `Err(Some((operation, error)))`: the store answered with an error (not yet judged);
+    /// `Err(None)`: a violation / inconclusive was recorded.
+    fn read_raw(&mut self, a: usize, i: usize, as_map: bool) -> Result<Observed, Option<(&'static str, StoreError)>> {
+        let id = self.id_of(a, i).ok_or(None)?;
+        let expected_len = match self.model.repr(a, i, true) {
             Cell::Map(m) => m.len(),
             _ => 0,
         };
-        let node = self.nodes[a].as_ref().ok_or(())?;
-        if is_map {
+        let node = self.nodes[a].as_ref().ok_or(None)?;
+        if as_map {
             let res: Result<Result<Vec<(Vec<u8>, Vec<u8>)>, StoreError>, StoreError> = match node.read_map(id) {
                 Ok(mut con) => {
                     let mut out = Vec::new();
@@ -431,35 +478,51 @@ impl<'s, B: Backend> Runner<'s, B> {
                             Some((a, Some(i))),
                             json!({ "consumed": entries.len(), "model_entries": expected_len }),
                         );
-                        return Err(());
+                        return Err(None);
                     }
                     Ok(Observed::Map(entries))
                 }
-                Ok(Err(e)) => {
-                    self.store_error("consume_next", &e, Some((a, Some(i))));
-                    Err(())
-                }
-                Err(e) => {
-                    self.store_error("read_map", &e, Some((a, Some(i))));
-                    Err(())
-                }
+                Ok(Err(e)) => Err(Some(("consume_next", e))),
+                Err(e) => Err(Some(("read_map", e))),
             }
         } else {
-            // "leaving any existing content intact": start from a non-empty buffer.
-            let junk: &[u8] = if self.events % 2 == 0 { b"\xAA\xBB\xCC" } else { b"" };
-            let mut buf = BytesMut::new();
-            buf.extend_from_slice(junk);
+            // "leaving any existing content intact": every other read starts from a non-empty
+            // buffer (3, 37 or 300 bytes; the longest one is beyond the inline capacity of a
+            // `BytesMut` and, one time in two, leaves no spare capacity at all).
+            let junk: Vec<u8> = if self.events % 2 == 0 {
+                let n = [3usize, 37, 300][(self.events / 2 % 3) as usize];
+                (0..n).map(|k| [0xAAu8, 0xBB, 0xCC][k % 3]).collect()
+            } else {
+                Vec::new()
+            };
+            let mut buf = if self.events % 4 == 0 { BytesMut::with_capacity(junk.len()) } else { BytesMut::new() };
+            buf.extend_from_slice(&junk);
             match node.get_value(id, &mut buf) {
-                Ok(None) => Ok(Observed::Value(None)),
+                Ok(None) => {
+                    // Nothing stored: nothing may have been written into the caller's buffer.
+                    if buf[..] != junk[..] {
+                        self.violation(
+                            "get_value/buffer-changed-although-none-returned",
+                            "get_value returned None but did not leave the content of the buffer as it was",
+                            Some((a, Some(i))),
+                            json!({ "buffer_before": esc(&junk), "buffer_after": esc(&buf) }),
+                        );
+                        return Err(None);
+                    }
+                    if !junk.is_empty() {
+                        self.count("get_value_none_nonempty_buffer_untouched");
+                    }
+                    Ok(Observed::Value(None))
+                }
                 Ok(Some(n)) => {
-                    if buf.len() < junk.len() || &buf[..junk.len()] != junk {
+                    if buf.len() < junk.len() || buf[..junk.len()] != junk[..] {
                         self.violation(
                             "get_value/buffer-content-clobbered",
                             "get_value did not leave the existing content of the buffer intact",
                             Some((a, Some(i))),
                             json!({ "buffer": esc(&buf) }),
                         );
-                        return Err(());
+                        return Err(None);
                     }
                     if buf.len() - junk.len() != n {
                         self.violation(
@@ -468,14 +531,14 @@ impl<'s, B: Backend> Runner<'s, B> {
                             Some((a, Some(i))),
                             Json::Null,
                         );
-                        return Err(());
+                        return Err(None);
+                    }
+                    if !junk.is_empty() {
+                        self.count("get_value_appended_to_nonempty_buffer_count_ok");
                     }
                     Ok(Observed::Value(Some(buf[junk.len()..].to_vec())))
                 }
-                Err(e) => {
-                    self.store_error("get_value", &e, Some((a, Some(i))));
-                    Err(())
-                }
+                Err(e) => Err(Some(("get_value", e))),
             }
         }
     }
@@ -542,9 +605,123 @@ impl<'s, B: Backend> Runner<'s, B> {
         false
     }
 
-    fn check_read(&mut self, a: usize, i: usize) {
-        let Ok(obs) = self.observe(a, i) else { return };
-        if let Some((sig, info)) = diff(&self.model.cells[a][i], &obs) {
+    /// A store may answer `InvalidOperation` to an operation of one kind on an item that holds (or
+    /// may hold) data of the other kind; nothing may change by it. Returns whether the error is
+    /// such a refusal (then it has been counted and, for a write, both representations probed).
+    fn legitimate_refusal(&mut self, op: &Step, e: &StoreError, a: usize, i: usize, cross: bool) -> bool {
+        if !matches!(e, StoreError::InvalidOperation) {
+            return false;
+        }
+        let presence = self.model.other_presence(a, i, op.is_map_op());
+        if presence == Presence::Absent {
+            return false;
+        }
+        let name = op.name();
+        self.count(&format!("refused_InvalidOperation/{name}"));
+        if presence == Presence::MaybeEmptyMap {
+            self.count("refused_because_of_a_map_emptied_by_remove_map");
+        }
+        if !cross {
+            self.count("refused_operation_of_the_declared_kind_after_the_other_kind_was_accepted");
+        }
+        if op.is_mutation() {
+            // A refused write must leave both representations as they were.
+            let tag = format!("refused-{name}");
+            self.probe(a, i, false, &tag);
+            self.probe(a, i, true, &tag);
+        }
+        true
+    }
+
+    /// Read one representation of an item right after an operation that must not have changed it.
+    fn probe(&mut self, a: usize, i: usize, as_map: bool, tag: &str) {
+        if self.stopped() {
+            return;
+        }
+        self.events += 1;
+        match self.read_raw(a, i, as_map) {
+            Err(None) => {}
+            Err(Some((call, e))) => {
+                // The read itself may be refused (the item holds data of the other kind).
+                let refused = call != "consume_next" && matches!(e, StoreError::InvalidOperation) && self.model.other_presence(a, i, as_map) != Presence::Absent;
+                if refused {
+                    self.count("probe_read_refused_InvalidOperation");
+                    let slot = &mut self.unverified[a][i][as_map as usize];
+                    if slot.is_none() {
+                        *slot = Some(tag.to_string());
+                    }
+                } else {
+                    self.store_error(call, &e, Some((a, Some(i))));
+                }
+            }
+            Ok(obs) => match diff(self.model.repr(a, i, as_map), &obs) {
+                None => {
+                    self.unverified[a][i][as_map as usize] = None;
+                    self.count(if tag.starts_with("refused") { "probe_after_refused_write_unchanged" } else { "probe_after_accepted_write_other_kind_unchanged" })
+                }
+                Some((sig, info)) => {
+                    let earlier = self.unverified[a][i][as_map as usize].take();
+                    let tag = earlier.as_deref().unwrap_or(tag);
+                    let what = if tag.starts_with("refused") {
+                        "a write that the store refused (InvalidOperation) changed what the item holds"
+                    } else {
+                        "an accepted write of one kind changed what the item holds under the other kind (the write was not refused, so value and map storage of the identifier must be independent)"
+                    };
+                    self.violation(format!("kinds/{tag}/{sig}"), what, Some((a, Some(i))), json!({ "diff": info, "read_as": if as_map { "map" } else { "value" } }));
+                }
+            },
+        }
+    }
+
+    fn check_read(&mut self, step: &Step, a: usize, i: usize) {
+        let (op, cross) = step.data_op();
+        let as_map = op.is_map_op();
+        let obs = match self.read_raw(a, i, as_map) {
+            Ok(obs) => obs,
+            Err(None) => return,
+            Err(Some((call, e))) => {
+                if call != "consume_next" && self.legitimate_refusal(op, &e, a, i, cross) {
+                    return;
+                }
+                if as_map && self.foreign_pending[a][i] && matches!(e, StoreError::InvalidKey) {
+                    // What the statement does not decide: the read of a map under whose prefix a
+                    // malformed key lies may fail (it must not invent entries, panic or run on).
+                    self.count(&format!("foreign_short_key/{call}_answered_InvalidKey"));
+                    return;
+                }
+                return self.store_error(call, &e, Some((a, Some(i))));
+            }
+        };
+        let difference = diff(self.model.repr(a, i, as_map), &obs);
+        if as_map && self.foreign_pending[a][i] {
+            match difference {
+                None => self.count("foreign_short_key/read_map_left_it_out"),
+                Some((sig, info)) => self.violation(
+                    format!("foreign-key/{sig}"),
+                    "read_map of a map item under whose key prefix a malformed key lies neither failed nor returned exactly the entries written to the item",
+                    Some((a, Some(i))),
+                    json!({ "diff": info }),
+                ),
+            }
+            return;
+        }
+        if let Some((sig, info)) = difference {
+            if let Some(tag) = self.unverified[a][i][as_map as usize].take() {
+                return self.violation(
+                    format!("kinds/{tag}/{sig}"),
+                    "the first read of this representation of the item that the store answered since that write differs from the model (the store refused the reads in between)",
+                    Some((a, Some(i))),
+                    json!({ "diff": info, "read_as": if as_map { "map" } else { "value" } }),
+                );
+            }
+            if cross {
+                return self.violation(
+                    format!("kinds/cross-read/{sig}"),
+                    "a read of the kind other than the item's usual one differs from what the accepted operations of that kind on this item imply",
+                    Some((a, Some(i))),
+                    json!({ "diff": info, "read_as": if as_map { "map" } else { "value" } }),
+                );
+            }
             if self.confirm_alias(a, i) {
                 return;
             }
@@ -554,13 +731,22 @@ impl<'s, B: Backend> Runner<'s, B> {
             let what = format!("{} answered differently from what the preceding writes to this item imply", if sig.starts_with("read") { "read_map" } else { "get_value" });
             self.violation(sig, what, Some((a, Some(i))), json!({ "diff": info, "content_matches_item": foreign }));
         } else {
-            self.count(match obs {
+            self.unverified[a][i][as_map as usize] = None;
+            let class = match obs {
                 Observed::Value(None) => "get_value_none_ok",
                 Observed::Value(Some(ref v)) if v.is_empty() => "get_value_empty_value_ok",
                 Observed::Value(Some(_)) => "get_value_some_ok",
                 Observed::Map(ref es) if es.is_empty() => "read_map_empty_ok",
                 Observed::Map(_) => "read_map_entries_ok",
-            });
+            };
+            if cross {
+                self.count(&format!("other_kind_{class}"));
+                if self.model.other_presence(a, i, as_map) == Presence::Data {
+                    self.count("other_kind_read_answered_while_the_declared_kind_holds_data");
+                }
+            } else {
+                self.count(class);
+            }
         }
     }
 
@@ -610,15 +796,16 @@ impl<'s, B: Backend> Runner<'s, B> {
     }
 
     fn mutate(&mut self, step: &'s Step, a: usize, i: usize) {
+        let (op, cross) = step.data_op();
         let Some(id) = self.id_of(a, i) else { return };
-        if matches!(step, Step::Clear(..)) {
+        if matches!(op, Step::Clear(..)) && !cross {
             self.note_clear(a, i);
         }
         let Some(node) = self.nodes[a].as_mut() else {
             self.inconclusive = Some("harness: mutation without node store".to_string());
             return;
         };
-        let r = match step {
+        let r = match op {
             Step::Put(_, _, v) => node.put_value(id, v),
             Step::Del(_, _) => node.delete_value(id),
             Step::Upd(_, _, k, v) => node.update_map(id, k, v),
@@ -627,8 +814,74 @@ impl<'s, B: Backend> Runner<'s, B> {
             _ => Ok(()),
         };
         match r {
-            Ok(()) => self.model.apply(step),
-            Err(e) => self.store_error(step.name(), &e, Some((a, Some(i)))),
+            Ok(()) => {
+                let mut probe_other = false;
+                if self.kinds_mode {
+                    let presence = self.model.other_presence(a, i, op.is_map_op());
+                    if cross {
+                        self.count(&format!("other_kind_accepted/{}", op.name()));
+                    }
+                    match presence {
+                        Presence::Data => self.count("write_accepted_while_the_other_kind_holds_data"),
+                        Presence::MaybeEmptyMap => self.count("write_accepted_while_a_map_emptied_by_remove_map_may_exist"),
+                        Presence::Absent => {}
+                    }
+                    // The representation of the other kind must not change by it.
+                    probe_other = cross || presence != Presence::Absent;
+                }
+                if matches!(op, Step::Clear(..)) && self.foreign_pending[a][i] {
+                    // An accepted clear_map leaves nothing under the item's prefix.
+                    self.foreign_pending[a][i] = false;
+                    self.count("foreign_short_key/clear_map_accepted");
+                }
+                self.model.apply(step);
+                if probe_other {
+                    self.probe(a, i, !op.is_map_op(), &format!("accepted-{}", op.name()));
+                }
+            }
+            Err(e) => {
+                if !self.legitimate_refusal(op, &e, a, i, cross) {
+                    self.store_error(op.name(), &e, Some((a, Some(i))))
+                }
+            }
+        }
+    }
+
+    fn foreign(&mut self, a: usize, i: usize, variant: u8) {
+        let Some(id) = self.id_num(a, i) else {
+            self.inconclusive = Some("harness: foreign key for an item without a numeric identifier".to_string());
+            return;
+        };
+        self.close_all();
+        let key = crate::script::foreign_key(id, variant);
+        match self.backend.foreign_map_key(&key, b"verif-foreign-value") {
+            None => self.inconclusive = Some("harness: backend without foreign writer".to_string()),
+            Some(Err(why)) => self.inconclusive = Some(format!("harness: foreign writer failed: {}", sanitize_sig(&why))),
+            Some(Ok(())) => {
+                self.foreign_pending[a][i] = true;
+                self.count("foreign_short_key/written");
+            }
+        }
+        self.db_epoch += 1;
+        self.ensure_plane();
+    }
+
+    /// A second open of the directory that is open. The statement does not say whether it must
+    /// fail (RocksDB refuses it through its lock file); the store that is open must not notice.
+    fn second_open(&mut self) {
+        if self.plane.is_none() && !self.ensure_plane() {
+            return;
+        }
+        match self.backend.second_open() {
+            None => {}
+            Some(Ok(())) => self.count("second_open_while_open_succeeded"),
+            Some(Err(e)) => match classify_store_error("second_open", &e) {
+                Err(why) => self.inconclusive = Some(why),
+                Ok(_) => {
+                    let variant: String = format!("{e:?}").chars().take_while(|c| c.is_ascii_alphanumeric()).collect();
+                    self.count(&format!("second_open_while_open_refused/{variant}"));
+                }
+            },
         }
     }
 
@@ -753,10 +1006,17 @@ impl<'s, B: Backend> Runner<'s, B> {
                 self.burn_ids(*n);
                 self.count("filler_names_registered_inside_history");
             }
-            Step::Get(a, i) | Step::Read(a, i) => self.check_read(*a, *i),
+            Step::Get(a, i) | Step::Read(a, i) => self.check_read(step, *a, *i),
             Step::Put(a, i, _) | Step::Del(a, i) | Step::Upd(a, i, _, _) | Step::Rem(a, i, _) | Step::Clear(a, i) => {
                 self.mutate(step, *a, *i)
             }
+            Step::Cross(inner) => match (inner.is_mutation(), inner.target()) {
+                (true, Some((a, Some(i)))) => self.mutate(step, a, i),
+                (false, Some((a, Some(i)))) => self.check_read(step, a, i),
+                _ => {}
+            },
+            Step::SecondOpen => self.second_open(),
+            Step::Foreign(a, i, variant) => self.foreign(*a, *i, *variant),
         }
         !self.stopped()
     }
